@@ -28,6 +28,7 @@ from . import defuse as DU
 OD = "pyxel/observation/observation_dask.py"
 LEVEL = "other"
 BOUNDED = {
+    r'islands\.build': 'archipelagos of 1 and 3 islands (every seed)',
     r'^task': 'tasks with 1..2 swept parameters; processor family as in C06',
     r'^parallel\.params': 'parameter spaces as in C05',
 }      # unit-name / obligation-name patterns -> the family these obligations are proved for
